@@ -250,6 +250,21 @@ FAMILIES = {
 }
 
 
+def finding_key(fl):
+    """Canonical key of a recognised defect of the unchanged tree (for KNOWN_FINDINGS.jsonl); None otherwise."""
+    for e in fl["run_events"]:
+        if e.get("ev") == "msg" and e.get("kind") == "error":
+            d = e.get("data", "")
+            if d.startswith("Got a single commitment_signed message when expecting a batch") and \
+                    any(x.get("ev") == "msg" and x.get("kind") == "tx_init_rbf" for x in fl["run_events"]):
+                return "splice_rbf_tx_abort_crossing_initial_commitment_signed_closes_channel"
+            if d.startswith("Unexpected next_funding txid") and \
+                    any(x.get("ev") == "msg" and x.get("kind") == "tx_init_rbf" for x in fl["run_events"]):
+                return "splice_rbf_unknown_next_funding_closes_channel"
+            break
+    return None
+
+
 # ------------------------------------------------------------------------------- attribution, self-test
 
 def attribute(pid, wd, fail, tag):
@@ -392,25 +407,39 @@ def run_part(pid, tier, seed, wd):
     bins = vlib.build(["splicenet"])
 
     # ---- design check + behaviours
+    only = [x for x in os.environ.get("SPLICE_ONLY", "").split(",") if x]       # (development: a subset of the batches)
     mc_cfgs = ["SpliceMC.cfg", "SpliceMC_tie0.cfg", "SpliceMC_disc0.cfg"] + (["SpliceMC_tie.cfg", "SpliceMC_disc.cfg"] if thorough else [])
+    if only and "tlc" not in only:
+        mc_cfgs = []
     mcs, conv = [], []
     for cfg in mc_cfgs:
-        r = vlib.tlc_mc(pid, "SpliceMC", cfg, workers=12, timeout=1800 if thorough else 600)
+        # (TLC's -coverage costs close to a minute whatever the size of the model: the small instances are checked
+        # for vacuity through the scripts they emit instead)
+        with_cov = thorough and cfg in ("SpliceMC.cfg", "SpliceMC_tie.cfg", "SpliceMC_disc.cfg")
+        r = vlib.tlc_mc(pid, "SpliceMC", cfg, workers=12, timeout=1800 if thorough else 600, coverage=with_cov)
         if r["violated"]:
             raise vlib.ToolError("design model violates %s in %s (spec needs correction)" % (r["violated"], cfg))
         if "Deadlock reached" in r["out"]:
             raise vlib.ToolError("design model deadlocks in %s: an observable-level guard is unmet (spec needs correction)" % cfg)
-        vlib.require_coverage(r, MC_ACTIONS_BY_CFG[cfg], cfg)
         got = vlib.tlc_printed(r["out"], "SCRIPT")
+        if with_cov:
+            vlib.require_coverage(r, MC_ACTIONS_BY_CFG[cfg], cfg)
+        else:
+            ops_seen = {o["op"] for g in got for o in g["ops"]}
+            want_ops = {"SpliceMC.cfg": {"send", "claim", "splice", "deliver", "mine", "sync"},
+                        "SpliceMC_tie0.cfg": {"splice", "deliver", "mine", "sync"},
+                        "SpliceMC_disc0.cfg": {"splice", "deliver", "disconnect", "reconnect"}}[cfg]
+            if not got or not want_ops <= ops_seen or (cfg == "SpliceMC_tie0.cfg" and not any(sum(1 for o in g["ops"] if o["op"] == "splice") == 2 for g in got)):
+                raise vlib.ToolError("vacuity: %s emitted %d scripts with ops %s" % (cfg, len(got), sorted(ops_seen)))
         vlib.log("[mc] %s: %d distinct states, %d generated, depth %d, %d scripts, %.0fs" %
                  (cfg, r["distinct"], r["states"], r["depth"], len(got), r["wall_s"]))
-        cap = (1200 if thorough else 150)
+        cap = (1200 if thorough else 60)
         if len(got) > cap:
             got = rng.sample(got, cap)
         conv += [convert_script(s, MC_ASYNC.get(cfg, 0), k, rng) for k, s in enumerate(got)]
         r.pop("out")
         mcs.append((cfg, r))
-    for cfg in ["SpliceMC_mutStfu.cfg", "SpliceMC_mutDepth.cfg"]:
+    for cfg in ([] if only else ["SpliceMC_mutStfu.cfg", "SpliceMC_mutDepth.cfg"]):
         r = vlib.tlc_mc(pid, "SpliceMC", cfg, workers=4, timeout=600, coverage=False)
         if not r["violated"]:
             raise vlib.ToolError("spec mutant %s is not rejected by TLC: invariants are vacuous" % cfg)
@@ -422,7 +451,7 @@ def run_part(pid, tier, seed, wd):
 
     # ---- real code
     batches = [("tlc", ["--scripts", spath])] if conv else []
-    fam_counts = {"cut": 88, "cutrestart": 88, "cutasync": 88, "lock": 60, "tie": 60, "fwd3": 50, "hold": 60} if not thorough else \
+    fam_counts = {"cut": 44, "cutrestart": 44, "cutasync": 44, "lock": 30, "tie": 30, "fwd3": 24, "hold": 30} if not thorough else \
                  {"cut": 440, "cutrestart": 440, "cutasync": 440, "lock": 300, "tie": 300, "fwd3": 300, "hold": 300}
     nfam = 0
     for fam, count in fam_counts.items():
@@ -433,9 +462,11 @@ def run_part(pid, tier, seed, wd):
             for s_ in made:
                 f.write(json.dumps(s_) + "\n")
         batches.append((fam, ["--scripts", fpath]))
-    for name, nodes, runs in ([("default", 2, 60), ("restart", 2, 50), ("async", 2, 50), ("default", 3, 40), ("restart", 3, 30)] if not thorough else
+    for name, nodes, runs in ([("default", 2, 30), ("restart", 2, 25), ("async", 2, 25), ("default", 3, 16), ("restart", 3, 12)] if not thorough else
                               [("default", 2, 500), ("restart", 2, 400), ("async", 2, 400), ("default", 3, 300), ("restart", 3, 300), ("async", 3, 200)]):
         batches.append(("%s%d" % (name, nodes), ["--random", runs, "--nodes", nodes, "--profile", name]))
+    if only:
+        batches = [b for b in batches if b[0] in only]
     nviol, total_events, total_runs, executed, skipped, panics = 0, 0, 0, 0, 0, 0
     accepted_traces = []
     kinds_seen = {}
@@ -468,12 +499,19 @@ def run_part(pid, tier, seed, wd):
             groups = set() if ev.get("ev") == "panic" else attribute(pid, wd, fl, "%s-%d" % (bname, k))
             vlib.log("[reject] splice batch %s run %s at event %d (%s %s): guard groups %s" %
                      (bname, fl["run"], fl["pos_in_run"], ev.get("ev"), ev.get("kind", ""), sorted(groups) or "unattributed"))
+            script = None
+            if args[0] == "--scripts":
+                with open(args[1]) as f:
+                    lines = f.read().splitlines()
+                if isinstance(fl["run"], int) and 0 < fl["run"] <= len(lines):
+                    script = json.loads(lines[fl["run"] - 1])
             if vlib.report_violation(pid, "splice-%s-run%s" % (bname, fl["run"]), {
                     "property": pid, "part": "quiescence + splicing (Splice.tla)", "kind": fl["kind"], "invariant": fl["inv"],
                     "guard_groups": sorted(groups), "first_unmatched_event": ev, "position_in_run": fl["pos_in_run"],
                     "batch": bname, "engine": "splicenet", "engine_args": eargs, "env": {"LDK_TEST_CONNECT_STYLE": style},
-                    "trace_of_run": fl["run_events"], "last_state": fl["last_state"],
-                    "how_to_replay": "harness/target/debug/splicenet <engine_args> --out t.ndjson ; tools/tv.sh SpliceTrace t.ndjson   (run id = `run` field)"}):
+                    "script": script, "trace_of_run": fl["run_events"], "last_state": fl["last_state"],
+                    "how_to_replay": "harness/target/debug/splicenet <engine_args> --out t.ndjson ; tools/tv.sh SpliceTrace t.ndjson   (run id = `run` field; "
+                                     "or put `script` alone into a file and pass it with --scripts)"}, key=finding_key(fl)):
                 nviol += 1
     if total_runs and executed < skipped:
         raise vlib.ToolError("splicenet: drivers mostly skip (%d executed, %d skipped)" % (executed, skipped))
@@ -481,11 +519,11 @@ def run_part(pid, tier, seed, wd):
     need = ["stfu", "splice_init", "splice_ack", "tx_add_input", "tx_add_output", "tx_complete", "tx_signatures", "splice_locked",
             "commitment_signed", "channel_reestablish", "tx_abort"]
     missing = [k for k in need if kinds_seen.get(k, 0) == 0]
-    if missing and not nviol:
+    if missing and not nviol and not only:
         raise vlib.ToolError("splicenet: message kinds never seen on the wire: %s" % missing)
 
     st = None
-    if nviol == 0:
+    if nviol == 0 and not only:
         pick = [t for t in accepted_traces if any(x in t for x in ("-tie", "-cutasync", "-lock", "-tlc"))] or accepted_traces
         st = selftest(pid, wd, pick[:4])
         vlib.log("[selftest] %s" % st)
